@@ -186,6 +186,7 @@ static void exec_conc(const Plan &p, RunResult &r) {
         for (int t = 0; t < W; t++) for (auto *o : tops[(size_t) t]) run_op(*o, sh, ref[(size_t) t], sh.ck, false);
     };
     bool cold = p.cfg.geti("cold") != 0;
+    set_trig_yields(cold);
     TFheGateBootstrappingCloudKeySet *cold_key = nullptr;
     if (cold) {
         // helper process: everything that needs the secret key or the FFT layer happens there
